@@ -11,10 +11,9 @@ def one(binary, case):
     try:
         dr = vlib.Driver(binary, env={"SIGDRV_GOMAXPROCS": str(case["procs"])},
                          stderr_path=("%s/stderr-%s.txt" % (case["diag"], case["seed"])) if case.get("diag") else None)
-        # persistent-query acceleration is switched off here: with it on, repeated group-by queries return wrong sums under
-        # this load independently of rotation (tracked under C03, see DESIGN.md section 6); C11 is about the
-        # ingest / flush / rotation / search protocol itself
-        dr.ok("init", dir=d, pqs=False, **({"logfile": "%s/log-%s.txt" % (case["diag"], case["seed"])} if case.get("diag") else {}))
+        # persistent-query acceleration (production default) is on in every third run: rotations then write agile trees and
+        # queries are answered from persisted match results where they exist
+        dr.ok("init", dir=d, pqs=bool(case.get("pqs")), **({"logfile": "%s/log-%s.txt" % (case["diag"], case["seed"])} if case.get("diag") else {}))
         return dr.ok("vis_stress", indexes=case["indexes"], ms=case["ms"], seed=case["seed"], queriers=case["queriers"], diag=case.get("diag", ""), new_cols=case.get("new_cols", False), timeout=180)
     finally:
         if dr is not None:
@@ -28,7 +27,7 @@ def run(chk, binary):
     n = 6 if quick else 40
     for i in range(n):
         cases.append({"idx": i, "procs": [1, 2, 4, 16][i % 4], "indexes": 1 + i % 2, "ms": 2500 if quick else 6000,
-                      "seed": chk.seed * 1000 + i, "queriers": 2 + i % 3, "new_cols": i % 3 == 2})
+                      "seed": chk.seed * 1000 + i, "queriers": 2 + i % 3, "new_cols": i % 3 == 2, "pqs": i % 3 == 1})
 
     def f(c):
         try:
